@@ -59,6 +59,25 @@ FacetOK(f) == /\ Len(f) = 5 /\ f[4] \in 1..MaxW /\ f[5] \in 1..MaxP
               /\ \A c \in 1..3 : AbsI(f[c]) <= MaxW
               /\ f[1]*f[1] + f[2]*f[2] + f[3]*f[3] = f[4]*f[4]
 WellFormed(facets) == Len(facets) >= 4 /\ \A i \in DOMAIN facets : FacetOK(facets[i])
+(* ---- surfaces listed per Miller plane and expanded by the point group (WulffConstruction.from_gmf_and_crystal) ------ *)
+(* records: sequence of <<h, k, l, p>> (a plane may be listed several times: different terminations); rots: sequence of  *)
+(* 3x3 integer matrices (rotation parts of the space group, acting on hkl as R.hkl).  Every direction reached by some    *)
+(* (record, rotation), as itself or as the opposite of one reached, is a facet and carries the SMALLEST energy reaching *)
+(* it.  Directions are primitive integer triples.                                                                       *)
+Gcd2(a, b) == LET x == AbsI(a) y == AbsI(b) IN
+              IF x = 0 THEN y ELSE IF y = 0 THEN x ELSE CHOOSE g \in 1..(IF x < y THEN x ELSE y) : x % g = 0 /\ y % g = 0 /\ \A h \in (g+1)..(IF x < y THEN x ELSE y) : ~(x % h = 0 /\ y % h = 0)
+Primitive(v) == LET g == Gcd2(Gcd2(v[1], v[2]), v[3]) IN IF g = 0 THEN v ELSE <<v[1] \div g, v[2] \div g, v[3] \div g>>
+RotApply(R, v) == <<R[1][1]*v[1] + R[1][2]*v[2] + R[1][3]*v[3], R[2][1]*v[1] + R[2][2]*v[2] + R[2][3]*v[3],
+                    R[3][1]*v[1] + R[3][2]*v[2] + R[3][3]*v[3]>>
+NegV(v) == <<-v[1], -v[2], -v[3]>>
+Reached(records, rots) ==
+  UNION {UNION {LET d == Primitive(RotApply(rots[r], <<records[i][1], records[i][2], records[i][3]>>))
+                IN {<<d, records[i][4]>>, <<NegV(d), records[i][4]>>} : r \in DOMAIN rots} : i \in DOMAIN records}
+ExpandPlanes(records, rots) ==
+  LET re == Reached(records, rots)
+      dirs == {x[1] : x \in re}
+  IN {<<d, CHOOSE p \in {x[2] : x \in {y \in re : y[1] = d}} : \A x \in re : x[1] = d => p <= x[2]>> : d \in dirs}
+
 CrossTab(pl) == TLCEval([i \in DOMAIN pl |-> TLCEval([j \in DOMAIN pl |-> Cross(pl[i].v, pl[j].v)])])
 
 (* no two facets with the same direction (a repeated plane has no identity of its own) *)
